@@ -41,6 +41,16 @@ def strings(rng, n):
            "115792089237316195423570985008687907853269984665640564039457584007913129639936",
            "0." + "9" * 80, "9" * 80 + ".1", "0." + "0" * 90 + "1", "0." + "0" * 90]
     digits = "0123456789"
+    # redundant leading zeros: the value, not the length of the numeral, decides (a length guard on the
+    # units or the fraction part refuses representable amounts)
+    for k in [1, 17, 18, 19, 59, 60, 61, 76, 77, 78, 79, 80, 100, 255, 256, 257, 1000]:
+        out.append("0" * k)
+        out.append("0" * k + "1.5")
+        out.append("0" * k + "." + "0" * k)
+        out.append("0" * k + str((1 << 256) // (10 ** 18)) + ".584007913129639935")
+        out.append("0" * k + str((1 << 256) // (10 ** 18)) + ".584007913129639936")
+        out.append("7." + "0" * k)
+        out.append("7.5" + "0" * k)
     while len(out) < n:
         w = "".join(rng.choice(digits) for _ in range(rng.choice([1, 1, 2, 5, 19, 40, 59, 60, 61, 78])))
         if rng.random() < 0.3:
@@ -48,6 +58,8 @@ def strings(rng, n):
         f = "".join(rng.choice(digits) for _ in range(rng.choice([0, 1, 2, 9, 17, 18, 18, 19, 25])))
         if rng.random() < 0.4:
             f += "0" * rng.randrange(0, 6)
+        if rng.random() < 0.1:
+            w = "0" * rng.choice([1, 20, 70, 79, 120]) + w
         s = w + ("." + f if rng.random() < 0.8 else "")
         if rng.random() < 0.35:     # near-grammar mutation
             i = rng.randrange(0, len(s) + 1)
